@@ -286,10 +286,16 @@ def scn(params):
                                                   "reply with id %d, which matches none of the 16 most recent forwarded queries, was sent to %s"
                                                   % (rid, [(ip, g[2]) for ip, g in got]), dict(wit, time_us=k.now, window=repr(recent)[:400])))
             elif op == "tunnel":
-                if tunnel_ok:
+                if tunnel_ok and rng.random() < 0.5:
+                    # a small upstream packet of the tunnel session (its last fragment is acknowledged on the server's 20 ms
+                    # timer), then a moment of silence: the forwarded queries that are still waiting for their reply stay remembered
+                    mc.send_frame(proto.make_frame(mc.tun_ip, "10.9.0.1", (0xC20 << 20) | step, rng.choice([32, 60]), "random", rng), wait_us=30000 + J)
+                    k.run(k.now + rng.choice([25000, 60000]) + J)
+                elif tunnel_ok:
                     mc.ping(20000 + J)
             else:
-                k.run(k.now + rng.choice([1000, 100000, 2 * US]))
+                # (a slow local DNS server: up to 12 s without anything happening at all)
+                k.run(k.now + rng.choice([1000, 100000, 2 * US, 2 * US, 12 * US]))
         out["evaluations"] = out["stats"]["fwd_queries"] + out["stats"]["replies"]
         h = sim.health(srv)
         if h != "running":
